@@ -1,5 +1,6 @@
 import Pearl.Proofs.FsLemmas
 import Pearl.Proofs.SyncProto
+import Pearl.Proofs.SyncProto2
 /-
 C12: durability ordering, on the file / trace layer (L6, `Pearl/Model/Fs.lean`).
 
@@ -208,7 +209,8 @@ cooperating pieces (`Inner::should_try_fsync` / `Inner::fsyncdata` with its `fsy
 `ObserverWorker::try_run_fsync_task` with its task handle, `File::fsyncdata` publishing `synced_size`).  The theorems
 below are about every schedule of the atomic steps of those pieces.
 
-Summary of what is TRUE and what is FALSE of /repo as it is (variant `current`); client writes may be split into
+Summary of what is TRUE and what is FALSE of /repo BEFORE its commit bc65670 (variant `current`; the code as it is since
+that commit is `recheckOnly`, section (7) at the end); client writes may be split into
 their append and their `should_try_fsync` (`append` / `decide`), so concurrent client calls are covered:
 * (1) `flag_implies_task`, (4) `synced_size_sound`, the failure half of (3) (`sync_after_failure`,
   `flag_clear_at_rest`, `comes_to_rest`) and (6) `quiescent_projection` hold.
@@ -221,6 +223,11 @@ their append and their `should_try_fsync` (`append` / `decide`), so concurrent c
 * (5) the four seeded changes: `guardLate_counter_model`, `resetSkipped_counter_model`, `notReaped_counter_model`,
   `publishAlways_counter_model`.
 * a candidate repair for which the bound holds after every schedule: `bounded_at_quiescence_repaired`.
+* (7) the code as it is (`recheckOnly`): (1), (4), rest and (6) carry over (`…_recheckOnly`); window (a) of (2)/(3) is closed
+  (`e23_schedule_now_synced`); the bound at rest is `limit + late` (`bounded_at_quiescence_recheckOnly`) with `late ≠ 0` only
+  through window (b) (`window_b_characterised`, `window_b_witness`); and the re-check of the code is behind one exit of
+  the task body only, which `step` does not have - the code reading `…_code`, windows (c): `early_return_window_witness`,
+  `failed_sync_not_retried_witness`, `bounded_at_quiescence_code`.
 -/
 namespace Pearl
 namespace SyncProto
@@ -638,28 +645,525 @@ example : (⟨837, 837, false, .finished, .idle, 0, 0, 837, 0, 0⟩ : St).dirty 
     ⟨20, [.write 79, .write 369, .recv, .cas, .check, .start, .write 369, .complete true,
       .release, .recheck, .cas, .check, .start, .complete true, .release, .recheck, .finish], by decide +kernel⟩ rfl
 
+/-! ### (7) the code since /repo bc65670: the re-check is in, the worker still drops requests (`recheckOnly`)
+
+`Inner::fsyncdata` is now a loop: compare-exchange, guard in an inner scope, check, `safe.fsyncdata()`, END of the inner
+scope (storage lock dropped, then the guard: flag := false), then `safe.read()` again and `too_many_dirty_bytes` once
+more - over the limit: round the loop (compare-exchange again), otherwise `return Ok(())` and the task ends.
+`try_run_fsync_task` is unchanged.  `step … .recheck` has the re-check exactly there: enabled in `released` only (after
+`release` = lock and flag given back), while the handle is still unfinished, it leads back to `spawned` (the
+compare-exchange) or to `done` (from where only `finish` is left) - `recheck_position`.
+
+ONE DIFFERENCE between `step` with `recheck := true` and the code (found while reading the function for this section;
+`Pearl/Proofs/SyncProto2.lean` has the function side by side): in the code the re-check is behind ONE exit of the inner
+scope, the one after a `safe.fsyncdata()` that succeeded.  The early return ("not over the limit") and the `?` of a failed
+sync leave the function from inside the scope: guard dropped, NO re-check, task ends.  `step` re-checks after every
+`release`.  So the theorems below come in two readings, both over the same ghost wrapper `GSt` / `gstep c`:
+* `c = false` is `step v` itself (`gstep_false_st`): the theorems named `…_recheckOnly` are about `Reach recheckOnly` / `run`;
+* `c = true` is the code: the theorems named `…_code` (about `GReach true`), and the two schedules on which the readings
+  part: `early_return_window_witness` (window (c)) and `failed_sync_not_retried_witness`.
+-/
+
+/-! #### (7.1) flag, published size, rest -/
+
+/-- (1) for the code as it is: the flag is set only while a task is between its compare-exchange and its exit -/
+theorem flag_implies_task_recheckOnly {limit : Nat} {s : St} (h : Reach recheckOnly limit s) (hf : s.flag = true) :
+    s.phase.owns = true ∧ s.hdl = .running :=
+  flag_implies_task (v := recheckOnly) rfl h hf
+
+/-- (4) for the code as it is -/
+theorem synced_size_sound_recheckOnly {limit : Nat} {s : St} (h : Reach recheckOnly limit s) :
+    s.synced ≤ s.durable ∧ s.durable ≤ s.size :=
+  synced_size_sound (v := recheckOnly) rfl h
+
+/-- at rest the flag is clear and the handle absent or finished, whatever failed before -/
+theorem flag_clear_at_rest_recheckOnly {limit : Nat} {s : St} (h : Reach recheckOnly limit s)
+    (hq : s.quiescent = true) : s.flag = false ∧ s.hdl ≠ .running :=
+  flag_clear_at_rest (v := recheckOnly) rfl h hq
+
+/-- where the re-check sits: after the reset of the flag (`released`, flag clear - so looking at the flag, as `step`
+    does, and not looking at it, as the code does, is the same), before the end of the task (handle unfinished), and it
+    either goes back to the compare-exchange (over the limit) or leaves only `finish` (within the limit); nothing else
+    changes -/
+theorem recheck_position {v : Variant} (hv : v.guarded = true) {limit : Nat} {s t : St} (h : Reach v limit s)
+    (hst : step v limit s .recheck = some t) :
+    v.recheck = true ∧ s.phase = .released ∧ s.flag = false ∧ s.hdl = .running ∧
+      ((s.dirty > limit ∧ t = { s with phase := .spawned }) ∨ (s.dirty ≤ limit ∧ t = { s with phase := .done })) := by
+  have hc := ctl_reach hv h
+  obtain ⟨hf, hh, _⟩ := hc
+  simp only [step] at hst
+  split at hst
+  · rename_i hp
+    have hfl : s.flag = false := by rw [hf, hp]; rfl
+    have hhd : s.hdl = .running := hh.2 (by simp [hp])
+    split at hst
+    · rename_i hr
+      refine ⟨hr, hp, hfl, hhd, ?_⟩
+      by_cases hov : s.dirty > limit
+      · have : shouldTryFsync limit s.dirty s.flag = true := by simp [shouldTryFsync, tooMany, hfl, hov]
+        simp only [this, if_true, Option.some.injEq] at hst
+        exact Or.inl ⟨hov, hst.symm⟩
+      · have : shouldTryFsync limit s.dirty s.flag = false := by simp [shouldTryFsync, tooMany, hov]
+        simp only [this, Bool.false_eq_true, if_false, Option.some.injEq] at hst
+        exact Or.inr ⟨by omega, hst.symm⟩
+    · simp at hst
+  · simp at hst
+
+/-- from `released` the task of the re-checking variants cannot end: `finish` is enabled in `done` only -/
+theorem finish_needs_recheck {v : Variant} (hr : v.recheck = true) {limit : Nat} {s t : St}
+    (hst : step v limit s .finish = some t) : s.phase = .done := by
+  simp only [step] at hst
+  split at hst <;> simp_all
+
+/-- with the re-check, left alone (every later sync succeeding) the protocol still comes to rest by itself, from every
+    state that satisfies the flag / handle invariant (`Ctl`: every reachable state does): the loop goes round at most once
+    more, because the size captured by a sync that starts now is the size the re-check will see.  The bound on the
+    number of steps is `measureR` (`comes_to_rest` has `measure`, which the loop exceeds). -/
+theorem comes_to_rest_recheck {v : Variant} (hv : v.guarded = true) (ha : v.awaitRunning = false) (limit : Nat)
+    {s : St} (hc : Ctl s) :
+    ∃ evs t, (∀ e ∈ evs, e.internal = true ∧ e.isFailure = false) ∧ run v limit s evs = some t ∧
+      t.quiescent = true ∧ evs.length ≤ s.measureR limit ∧ t.size = s.size ∧ t.blob = s.blob := by
+  obtain ⟨evs, h, h1, h2, h3, h4, h5, h6⟩ :=
+    g_comes_to_rest (c := false) hv ha limit _ { st := s } (Nat.le_refl _) hc
+  exact ⟨evs, h.st, h1, run_of_grun_false h2, h3, h4, h5, h6⟩
+
+theorem comes_to_rest_recheckOnly (limit : Nat) {s : St} (h : Reach recheckOnly limit s) :
+    ∃ evs t, (∀ e ∈ evs, e.internal = true ∧ e.isFailure = false) ∧ run recheckOnly limit s evs = some t ∧
+      t.quiescent = true ∧ evs.length ≤ s.measureR limit ∧ t.size = s.size ∧ t.blob = s.blob :=
+  comes_to_rest_recheck (v := recheckOnly) rfl rfl limit (ctl_reach (v := recheckOnly) rfl h)
+
+-- non-vacuity: the state of `bounded_at_quiescence_refuted` right after the guard has reset the flag (369 bytes were
+-- appended during `sync_all`): reachable, `measure` is 2 but 8 more steps are needed, `measureR` is 8
+example : ∃ evs t, (∀ e ∈ evs, e.internal = true ∧ e.isFailure = false) ∧
+    run recheckOnly 100 ⟨837, 468, false, .running, .released, 0, 0, 468, 369, 0⟩ evs = some t ∧
+    t.quiescent = true ∧ evs.length ≤ (⟨837, 468, false, .running, .released, 0, 0, 468, 369, 0⟩ : St).measureR 100 ∧
+    t.size = 837 ∧ t.blob = 0 :=
+  comes_to_rest_recheckOnly 100
+    ⟨20, [.write 79, .write 369, .recv, .cas, .check, .start, .write 369, .complete true, .release], by decide +kernel⟩
+example : (⟨837, 468, false, .running, .released, 0, 0, 468, 369, 0⟩ : St).measureR 100 = 8 ∧
+    (⟨837, 468, false, .running, .released, 0, 0, 468, 369, 0⟩ : St).measure = 2 := by decide
+example : (⟨220, 20, true, .running, .held, 0, 0, 20, 0, 0⟩ : St).phase.owns = true ∧
+    (⟨220, 20, true, .running, .held, 0, 0, 20, 0, 0⟩ : St).hdl = .running :=
+  flag_implies_task_recheckOnly (limit := 100) ⟨20, [.write 200, .recv, .cas], by decide⟩ rfl
+example : (⟨220, 20, true, .running, .returned true, 0, 0, 20, 0, 0⟩ : St).synced ≤ 20 :=
+  (synced_size_sound_recheckOnly (limit := 100)
+    ⟨20, [.write 200, .recv, .cas, .check, .start, .complete false], by decide⟩).1
+-- a state at rest of `step recheckOnly` reached through a FAILED sync (retried at once by `step`, see (7.4))
+example : (⟨220, 220, false, .finished, .idle, 0, 0, 220, 0, 0⟩ : St).flag = false ∧
+    (⟨220, 220, false, .finished, .idle, 0, 0, 220, 0, 0⟩ : St).hdl ≠ .running :=
+  flag_clear_at_rest_recheckOnly (limit := 100)
+    ⟨20, [.write 200, .recv, .cas, .check, .start, .complete false, .release, .recheck, .cas, .check, .start,
+      .complete true, .release, .recheck, .finish], by decide +kernel⟩ rfl
+-- the re-check of the E23 schedule: flag clear, handle unfinished, 369 > 100, back to the compare-exchange
+example : (⟨837, 468, false, .running, .released, 0, 0, 468, 369, 0⟩ : St).flag = false ∧
+    (⟨837, 468, false, .running, .released, 0, 0, 468, 369, 0⟩ : St).hdl = .running :=
+  have h := recheck_position (v := recheckOnly) rfl (limit := 100)
+    (s := ⟨837, 468, false, .running, .released, 0, 0, 468, 369, 0⟩)
+    (t := ⟨837, 468, false, .running, .spawned, 0, 0, 468, 369, 0⟩)
+    ⟨20, [.write 79, .write 369, .recv, .cas, .check, .start, .write 369, .complete true, .release], by decide +kernel⟩
+    (by decide)
+  ⟨h.2.2.1, h.2.2.2.1⟩
+
+/-! #### (7.2) E23 is closed: window (a) -/
+
+/-- The schedule of `no_lost_request_refuted` (a) / `bounded_at_quiescence_refuted` (the third write lands while `sync_all`
+    is in flight) under the code as it is.  Up to the reset of the flag it is the same (369 un-synced bytes, nothing
+    queued); there the task can NOT end (`finish` is not enabled) - the only internal step is the re-check, which finds
+    369 > 100 and goes round the loop: second sync, second re-check (nothing to do), end.  At rest: no un-synced byte,
+    `late = 0`.  The continuation is forced (`settle`).  Same in the code reading (`c = true`). -/
+theorem e23_schedule_now_synced :
+    let pre : List Ev := [.write 79, .write 369, .recv, .cas, .check, .start, .write 369, .complete true, .release]
+    let post : List Ev := [.recheck, .cas, .check, .start, .complete true, .release, .recheck, .finish]
+    let s1 : St := ⟨837, 468, false, .running, .released, 0, 0, 468, 369, 0⟩
+    let s : St := ⟨837, 837, false, .finished, .idle, 0, 0, 837, 0, 0⟩
+    run recheckOnly 100 (init 20) pre = some s1 ∧ s1.dirty = 369 ∧
+      step recheckOnly 100 s1 .finish = none ∧ next recheckOnly s1 = some .recheck ∧
+      run recheckOnly 100 s1 post = some s ∧ settle recheckOnly 100 8 s1 = s ∧
+      s.quiescent = true ∧ s.dirty ≤ 100 ∧ lateOf recheckOnly 100 20 (pre ++ post) = 0 ∧
+      grun true recheckOnly 100 (ginit 20) (pre ++ post) = some ⟨s, true, 0, 0, 0⟩ ∧
+      (run current 100 (init 20) (pre ++ [.finish])).map (·.dirty) = some 369 := by
+  refine ⟨by decide +kernel, by decide, by decide, by decide, by decide +kernel, by decide +kernel, by decide, by decide,
+    by decide +kernel, by decide +kernel, by decide +kernel⟩
+
+/-! #### (7.3) the bound at rest, and the residual: window (b) -/
+
+/-- (3) for the code as it is, in the reading of `step`: in every state at rest reached without a sync failure, the
+    un-synced bytes of the active blob are at most `limit + late`, where `late` (`lateOf`, computed along the schedule by
+    the ghost wrapper, `c = false`) = the bytes appended, since the latest size capture, after the task's LAST re-check
+    (phase `done`: flag clear, so the writes do send `TryFsyncData`) and given up when the worker dropped a request
+    while the handle was still unfinished. -/
+theorem bounded_at_quiescence_recheckOnly {v : Variant} (hv : v.recheckOk = true) {limit base : Nat} {evs : List Ev}
+    {s : St} (hok : ∀ e ∈ evs, e.isFailure = false) (h : run v limit (init base) evs = some s)
+    (hq : s.quiescent = true) : s.dirty ≤ limit + lateOf v limit base evs := by
+  obtain ⟨g, hg, rfl⟩ := grun_false_of_run (g := ginit base) h
+  have h1 := gbounded_at_quiescence hv ⟨base, evs, hok, hg⟩ hq
+  have h2 := unseen_run_false (g := ginit base) rfl hg
+  have h3 : lateOf v limit base evs = g.late := by simp [lateOf, hg]
+  omega
+
+/-- `late = 0` unless the schedule contains a `recv` of a request (queue non-empty) that meets an unfinished handle
+    (`hdl = running`) while the task is past its last re-check (`phase = done`): window (b), and nothing else. -/
+theorem window_b_characterised {v : Variant} {limit base : Nat} {evs : List Ev}
+    (h : lateOf v limit base evs ≠ 0) :
+    ∃ pre post s, evs = pre ++ .recv :: post ∧ run v limit (init base) pre = some s ∧
+      0 < s.queue ∧ s.hdl = .running ∧ s.phase = .done := by
+  cases hg : grun false v limit (ginit base) evs with
+  | none => simp [lateOf, hg] at h
+  | some g =>
+    have hl : g.late ≠ 0 := by simpa [lateOf, hg] using h
+    rcases late_pos_has_drop evs _ g hg hl with h0 | ⟨pre, post, k, h1, h2, h3, h4, h5, _⟩
+    · exact absurd rfl h0
+    · refine ⟨pre, post, k.st, h1, run_of_grun_false h2, h3, h4, ?_⟩
+      simp only [GSt.pastLook, look_false] at h5
+      cases hp : k.st.phase <;> simp_all
+
+/-- … so the bound of the property holds for every failure-free schedule in which no request is received in window (b) -/
+theorem bounded_at_quiescence_no_late_drop {v : Variant} (hv : v.recheckOk = true) {limit base : Nat} {evs : List Ev}
+    {s : St} (hok : ∀ e ∈ evs, e.isFailure = false) (h : run v limit (init base) evs = some s)
+    (hq : s.quiescent = true)
+    (hnd : ∀ pre post t, evs = pre ++ .recv :: post → run v limit (init base) pre = some t →
+      t.hdl = .running → t.phase ≠ .done) : s.dirty ≤ limit := by
+  have h1 := bounded_at_quiescence_recheckOnly hv hok h hq
+  by_cases hl : lateOf v limit base evs = 0
+  · omega
+  · obtain ⟨pre, post, t, h2, h3, _, h5, h6⟩ := window_b_characterised hl
+    exact absurd h6 (hnd pre post t h2 h3 h5)
+
+/-- the same with the executable check `noLateDrop` -/
+theorem bounded_at_quiescence_noLateDrop {v : Variant} (hv : v.recheckOk = true) {limit base : Nat} {evs : List Ev}
+    {s : St} (hok : ∀ e ∈ evs, e.isFailure = false) (hnd : noLateDrop v limit (init base) evs = true)
+    (h : run v limit (init base) evs = some s) (hq : s.quiescent = true) : s.dirty ≤ limit :=
+  bounded_at_quiescence_no_late_drop hv hok h hq (fun pre post t he hr hh hp =>
+    noLateDrop_split pre (init base) t post (he ▸ hnd) hr ⟨hh, hp⟩)
+
+/-- (3) as stated is still FALSE of /repo as it is - window (b) of `no_lost_request_refuted` is open.  Limit 100: a
+    200-byte write, its sync, the guard, the re-check (nothing to do: phase `done`); a second 200-byte write lands now:
+    the flag is clear, so it sends `TryFsyncData`; the worker receives it before the task's handle reports
+    `is_finished()` and drops it ("task is in progress"); the task ends.  At rest: 200 un-synced bytes, limit 100, nothing
+    queued, no failure; `late = 200`, the bound `limit + late` is met with 100 to spare.  This is the residual the
+    candidate `repaired` (`awaitRunning`) closes: there the same `recv` is not enabled.  Not replayed on the library
+    (no pause point between the re-check and the end of the task). -/
+theorem window_b_witness :
+    let evs : List Ev := [.write 200, .recv, .cas, .check, .start, .complete true, .release, .recheck, .write 200, .recv,
+      .finish]
+    let s : St := ⟨420, 220, false, .finished, .idle, 0, 0, 220, 200, 0⟩
+    run recheckOnly 100 (init 20) evs = some s ∧ (∀ e ∈ evs, e.isFailure = false) ∧ s.quiescent = true ∧
+      s.dirty = 200 ∧ ¬ s.dirty ≤ 100 ∧ lateOf recheckOnly 100 20 evs = 200 ∧
+      (run recheckOnly 100 (init 20) (evs.take 9)).map (fun t => (t.phase, t.hdl, t.flag, t.queue)) =
+        some (.done, .running, false, 1) ∧
+      grun true recheckOnly 100 (ginit 20) evs = some ⟨s, true, 0, 200, 0⟩ ∧
+      run repaired 100 (init 20) (evs.take 10) = none := by
+  refine ⟨by decide +kernel, by decide, by decide, by decide, by decide, by decide +kernel, by decide +kernel,
+    by decide +kernel, by decide +kernel⟩
+
+theorem bounded_at_quiescence_refuted_recheckOnly :
+    ¬ ∀ s, ReachOk recheckOnly 100 s → s.quiescent = true → s.dirty ≤ 100 := by
+  intro h
+  have := h ⟨420, 220, false, .finished, .idle, 0, 0, 220, 200, 0⟩
+    ⟨20, [.write 200, .recv, .cas, .check, .start, .complete true, .release, .recheck, .write 200, .recv, .finish],
+      by decide, by decide +kernel⟩ rfl
+  exact absurd this (by decide)
+
+-- non-vacuity: the bound with `late` on the witness (200 ≤ 100 + 200), and the bound `limit` on the E23 schedule,
+-- in which no request is received at all after the first one
+example : (⟨420, 220, false, .finished, .idle, 0, 0, 220, 200, 0⟩ : St).dirty ≤ 100 + lateOf recheckOnly 100 20
+    [.write 200, .recv, .cas, .check, .start, .complete true, .release, .recheck, .write 200, .recv, .finish] :=
+  bounded_at_quiescence_recheckOnly (v := recheckOnly) rfl (by decide) (by decide +kernel) rfl
+example : (⟨837, 837, false, .finished, .idle, 0, 0, 837, 0, 0⟩ : St).dirty ≤ 100 + lateOf recheckOnly 100 20
+    [.write 79, .write 369, .recv, .cas, .check, .start, .write 369, .complete true, .release, .recheck, .cas, .check,
+      .start, .complete true, .release, .recheck, .finish] :=
+  bounded_at_quiescence_recheckOnly (v := recheckOnly) rfl (by decide) (by decide +kernel) rfl
+-- two concurrent client calls, a redundant request dropped BEFORE the re-check (harmless), a write during `sync_all`
+-- that the re-check finds within the limit: at rest within the limit
+example : (⟨470, 420, false, .finished, .idle, 0, 0, 420, 50, 0⟩ : St).dirty ≤ 100 :=
+  bounded_at_quiescence_noLateDrop (v := recheckOnly) rfl (base := 20)
+    (evs := [.append 200, .append 200, .decide, .decide, .recv, .recv, .cas, .check, .start, .write 50, .complete true,
+      .release, .recheck, .finish])
+    (by decide) (by decide +kernel) (by decide +kernel) rfl
+example : ∃ pre post s,
+    [.write 200, .recv, .cas, .check, .start, .complete true, .release, .recheck, .write 200, .recv, .finish]
+      = pre ++ Ev.recv :: post ∧ run recheckOnly 100 (init 20) pre = some s ∧
+    0 < s.queue ∧ s.hdl = .running ∧ s.phase = .done :=
+  window_b_characterised (v := recheckOnly) (limit := 100) (base := 20) (by decide +kernel)
+
+/-! #### (7.4) with failures -/
+
+/-- (3), with failures, for the variants with the re-check: after ANY history, once the protocol is at rest, the first
+    write that takes the active blob over the limit leads to a sync again - request sent (flag clear), task started
+    (handle absent or finished), compare-exchange won, check passed, `sync_all` started with a captured size that
+    includes the write; when it succeeds: guard, re-check (nothing to do), end of the task, at rest with no un-synced
+    byte and the flag clear. -/
+theorem sync_after_failure_recheckOnly {v : Variant} (hv : v.recheckOk = true) {limit : Nat} {s : St}
+    (h : Reach v limit s) (hq : s.quiescent = true) {n : Nat} (hover : s.size + n - s.synced > limit) :
+    ∃ t u, run v limit s [.write n, .recv, .cas, .check, .start] = some t ∧
+      t.phase = .syncing (s.size + n) ∧
+      run v limit t [.complete true, .release, .recheck, .finish] = some u ∧
+      u.quiescent = true ∧ u.flag = false ∧ u.dirty = 0 := by
+  obtain ⟨t, u, h1, h2, _, _, h5, h6, h7, _, h9, h10, _⟩ :=
+    write_over_limit_syncs_recheck hv (ctl_reach (Variant.guarded_of_recheckOk hv) h) hq hover
+  refine ⟨t, u, h1, h2, h5, h6, h7, ?_⟩
+  simp only [St.dirty, h9, h10]
+  omega
+
+/-- In the reading of `step`, a failed sync is retried at once: after the guard the only internal step is the re-check,
+    which finds the blob still over the limit and goes back to the compare-exchange; rest is reached only after a sync
+    has succeeded (or a rotation has made the question moot).  The CODE does not do that (`?` leaves the function):
+    `failed_sync_not_retried_witness`. -/
+theorem failed_sync_retried_by_step :
+    let pre : List Ev := [.write 200, .recv, .cas, .check, .start, .complete false, .release]
+    let s1 : St := ⟨220, 20, false, .running, .released, 0, 0, 20, 0, 0⟩
+    run recheckOnly 100 (init 20) pre = some s1 ∧ step recheckOnly 100 s1 .finish = none ∧
+      next recheckOnly s1 = some .recheck ∧
+      (step recheckOnly 100 s1 .recheck).map (·.phase) = some .spawned ∧
+      settle recheckOnly 100 8 s1 = ⟨220, 220, false, .finished, .idle, 0, 0, 220, 0, 0⟩ := by
+  refine ⟨by decide, by decide, by decide, by decide, by decide +kernel⟩
+
+-- non-vacuity: a state at rest of `step recheckOnly` with a failed sync in its history (failure, rotation, re-check finds
+-- the new blob clean), then a write over the limit
+example : ∃ t u, run recheckOnly 100 ⟨20, 20, false, .finished, .idle, 0, 1, 20, 0, 0⟩
+      [.write 101, .recv, .cas, .check, .start] = some t ∧ t.phase = .syncing 121 ∧
+      run recheckOnly 100 t [.complete true, .release, .recheck, .finish] = some u ∧
+      u.quiescent = true ∧ u.flag = false ∧ u.dirty = 0 :=
+  sync_after_failure_recheckOnly (v := recheckOnly) rfl
+    ⟨20, [.write 200, .recv, .cas, .check, .start, .complete false, .release, .rotate 20, .recheck, .finish],
+      by decide +kernel⟩ rfl (by decide)
+
+/-! #### (7.5) `Fs` is still the projection onto the states at rest -/
+
+/-- (6) for the variants with the re-check: from a reachable state at rest, a client write followed by ANY schedule of
+    internal steps without a failure that ends at rest has, on (`size`, `synced_size`), exactly the effect of the write
+    followed by `Fs.fsyncCheckP` -/
+theorem quiescent_projection_recheckOnly {v : Variant} (hv : v.recheckOk = true) {limit : Nat} {s : St}
+    (h : Reach v limit s) (hq : s.quiescent = true) (n : Nat) {evs : List Ev} {t : St}
+    (hint : ∀ e ∈ evs, e.internal = true ∧ e.isFailure = false)
+    (hrun : run v limit s (.write n :: evs) = some t) (htq : t.quiescent = true) :
+    (t.size, t.synced) = checkEffect limit (s.size + n) s.synced ∧ t.flag = false ∧ t.blob = s.blob := by
+  have hc := ctl_reach (Variant.guarded_of_recheckOk hv) h
+  simp only [run_cons, step_write, Option.bind_some] at hrun
+  have hl := lone_afterWrite (limit := limit) hq n
+  have huniq := internal_run_unique hl hint hrun htq (fuel := evs.length + 8) (by omega)
+  have hflag : s.flag = false := by
+    rw [quiescent_iff] at hq
+    rw [hc.flag, hq.2.1]; rfl
+  by_cases hover : s.size + n - s.synced > limit
+  · obtain ⟨t', u, h1, _, _, _, h5, h6, h7, _, h9, h10, h11⟩ := write_over_limit_syncs_recheck hv hc hq hover
+    have hcanon : run v limit (afterWrite limit s n) syncScheduleR = some u := by
+      have : run v limit s ([.write n, .recv, .cas, .check, .start] ++ [.complete true, .release, .recheck, .finish])
+          = some u := by rw [run_append, h1]; exact h5
+      simpa [syncScheduleR] using this
+    have hu := internal_run_unique hl (evs := syncScheduleR) (by decide) hcanon h6 (fuel := evs.length + 8)
+      (by simp [syncScheduleR])
+    have htu : t = u := by rw [← huniq, hu]
+    subst htu
+    simp [checkEffect, hover, h9, h10, h7, h11]
+  · obtain ⟨hrest, hsy⟩ := write_within_limit_rests hq hover
+    have : settle v limit (evs.length + 8) (afterWrite limit s n) = afterWrite limit s n :=
+      settle_of_next_none ((next_none_iff _ _).2 hrest) _
+    have hta : t = afterWrite limit s n := by rw [← huniq, this]
+    subst hta
+    simp [checkEffect, hover, afterWrite, hflag]
+
+example : ∃ t, run recheckOnly 100 (init 20) (.write 101 :: syncScheduleR) = some t ∧ t.quiescent = true ∧
+    (t.size, t.synced) = checkEffect 100 (20 + 101) 20 := by
+  refine ⟨⟨121, 121, false, .finished, .idle, 0, 0, 121, 0, 0⟩, by decide, rfl, by decide⟩
+
+/-! #### (7.6) the code reading (`c = true`): re-check after a successful sync only -/
+
+/-- Window (c), the early return.  Two 200-byte writes both send a request (the second one before the first task has
+    taken the flag).  First task: sync of 420 bytes, guard, re-check, end.  The second request starts a second task:
+    compare-exchange won, check: nothing to do - `return Ok(())` from inside the guarded scope.  Before the guard is
+    dropped a third 200-byte write is acknowledged: over the limit, but the flag is still set, so no request.  Guard
+    dropped; the function has returned, there is NO re-check on this exit; the task ends.  At rest: 200 un-synced bytes,
+    limit 100, no failure, no request dropped (`late = 0`), `unseen = 200`.
+    In the reading of `step` the same schedule is not enabled at its last event (`finish` needs the re-check first),
+    and the re-check `step` inserts there finds the bytes and syncs them.
+    (The window is a few instructions wide: the drop of the two read guards before the drop of `_flag`.  Not replayed.) -/
+theorem early_return_window_witness :
+    let evs : List Ev := [.write 200, .write 200, .recv, .cas, .check, .start, .complete true, .release, .recheck, .finish,
+      .recv, .cas, .check, .write 200, .release, .finish]
+    let s : St := ⟨620, 420, false, .finished, .idle, 0, 0, 420, 200, 0⟩
+    grun true recheckOnly 100 (ginit 20) evs = some ⟨s, false, 0, 0, 200⟩ ∧ (∀ e ∈ evs, e.isFailure = false) ∧
+      s.quiescent = true ∧ s.dirty = 200 ∧ ¬ s.dirty ≤ 100 ∧
+      (grun true recheckOnly 100 (ginit 20) (evs.take 13)).map (fun g => (g.st.phase, g.st.flag, g.st.dirty, g.look true)) =
+        some (.returned true, true, 0, false) ∧
+      run recheckOnly 100 (init 20) evs = none ∧
+      (run recheckOnly 100 (init 20) (evs.take 15 ++ [.recheck, .cas, .check, .start, .complete true, .release, .recheck,
+        .finish])).map (·.dirty) = some 0 := by
+  refine ⟨by decide +kernel, by decide, by decide, by decide, by decide, by decide +kernel, by decide +kernel,
+    by decide +kernel⟩
+
+/-- The `?` exit.  One failed `sync_all`: the guard resets the flag, `Inner::fsyncdata` has returned the error, the task
+    logs it and ends.  At rest with 200 un-synced bytes over a limit of 100 and nothing scheduled - as before bc65670
+    (`flag_clear_at_rest` example), NOT retried.  `step recheckOnly` does not allow this schedule
+    (`failed_sync_retried_by_step`). -/
+theorem failed_sync_not_retried_witness :
+    let evs : List Ev := [.write 200, .recv, .cas, .check, .start, .complete false, .release, .finish]
+    let s : St := ⟨220, 20, false, .finished, .idle, 0, 0, 20, 0, 0⟩
+    grun true recheckOnly 100 (ginit 20) evs = some ⟨s, false, 0, 0, 0⟩ ∧ s.quiescent = true ∧ s.dirty = 200 ∧
+      run recheckOnly 100 (init 20) evs = none ∧ run current 100 (init 20) evs = some s := by
+  refine ⟨by decide +kernel, by decide, by decide, by decide +kernel, by decide +kernel⟩
+
+/-- (1) and (4) in the code reading -/
+theorem flag_implies_task_code {v : Variant} (hv : v.guarded = true) {limit : Nat} {g : GSt}
+    (h : GReach true v limit g) (hf : g.st.flag = true) : g.st.phase.owns = true ∧ g.st.hdl = .running := by
+  have hc := gctl_reach hv h
+  have ho : g.st.phase.owns = true := by rw [← hc.flag]; exact hf
+  refine ⟨ho, hc.hdl.2 ?_⟩
+  intro hi
+  simp [hi, Phase.owns] at ho
+
+theorem flag_clear_at_rest_code {v : Variant} (hv : v.guarded = true) {limit : Nat} {g : GSt}
+    (h : GReach true v limit g) (hq : g.st.quiescent = true) : g.st.flag = false ∧ g.st.hdl ≠ .running := by
+  have hc := gctl_reach hv h
+  rw [quiescent_iff] at hq
+  refine ⟨by rw [hc.flag, hq.2.1]; rfl, ?_⟩
+  intro hr
+  exact hc.hdl.1 hr hq.2.1
+
+theorem synced_size_sound_code {v : Variant} (hv : v.publishOnlyOnSuccess = true) {limit : Nat} {g : GSt}
+    (h : GReach true v limit g) : g.st.synced ≤ g.st.durable ∧ g.st.durable ≤ g.st.size :=
+  ⟨(gcnt_reach hv h).synced_le, (gcnt_reach hv h).durable_le⟩
+
+/-- the protocol comes to rest by itself in the code reading too (same measure, with "the re-check is ahead" read off the
+    ghost) -/
+theorem comes_to_rest_code {v : Variant} (hv : v.guarded = true) (ha : v.awaitRunning = false) (limit : Nat)
+    {g : GSt} (h : GReach true v limit g) :
+    ∃ evs k, (∀ e ∈ evs, e.internal = true ∧ e.isFailure = false) ∧ grun true v limit g evs = some k ∧
+      k.st.quiescent = true ∧ evs.length ≤ g.measure true limit ∧ k.st.size = g.st.size ∧ k.st.blob = g.st.blob :=
+  g_comes_to_rest hv ha limit _ g (Nat.le_refl _) (gctl_reach hv h)
+
+/-- (3) in the code reading: at rest, after any schedule without a sync failure, the un-synced bytes are at most
+    `limit + late + unseen` -/
+theorem bounded_at_quiescence_code {v : Variant} (hv : v.recheckOk = true) {limit : Nat} {g : GSt}
+    (h : GReachOk true v limit g) (hq : g.st.quiescent = true) : g.st.dirty ≤ limit + g.late + g.unseen :=
+  gbounded_at_quiescence hv h hq
+
+/-- `late ≠ 0` only through window (b): a request received while the handle is unfinished and the task is past its last
+    look (after its last re-check, or after the guard on an exit that has no re-check) … -/
+theorem window_b_characterised_code {v : Variant} {limit : Nat} {g : GSt} (base : Nat) (evs : List Ev)
+    (h : grun true v limit (ginit base) evs = some g) (hl : g.late ≠ 0) :
+    ∃ pre post k, evs = pre ++ .recv :: post ∧ grun true v limit (ginit base) pre = some k ∧
+      0 < k.st.queue ∧ k.st.hdl = .running ∧
+      (k.st.phase = .done ∨ (k.st.phase = .released ∧ k.afterSync = false)) := by
+  rcases late_pos_has_drop evs _ g h hl with h0 | ⟨pre, post, k, h1, h2, h3, h4, h5, _⟩
+  · exact absurd rfl h0
+  · refine ⟨pre, post, k, h1, h2, h3, h4, ?_⟩
+    simp only [GSt.pastLook, GSt.look] at h5
+    cases hp : k.st.phase <;> simp_all
+
+/-- … and `unseen ≠ 0` only through window (c): bytes appended while the task, on an exit that has no re-check (early
+    return, failed sync), still holds the flag -/
+theorem window_c_characterised_code {v : Variant} {limit : Nat} {g : GSt} (base : Nat) (evs : List Ev)
+    (h : grun true v limit (ginit base) evs = some g) (hl : g.unseen ≠ 0) :
+    ∃ pre e post k n, evs = pre ++ e :: post ∧ grun true v limit (ginit base) pre = some k ∧
+      (∃ r, k.st.phase = .returned r) ∧ k.afterSync = false ∧ 0 < n ∧ (e = .write n ∨ e = .append n) := by
+  rcases unseen_pos_has_early_write evs _ g h (Or.inl hl) with h0 | ⟨pre, e, post, k, n, h1, h2, h3, h4, h5⟩
+  · rcases h0 with h0 | h0
+    · exact absurd rfl h0
+    · simp [ginit, GSt.early, init] at h0
+  · refine ⟨pre, e, post, k, n, h1, h2, ?_, ?_, h4, h5⟩ <;>
+      (simp only [GSt.early, GSt.look] at h3; cases hp : k.st.phase <;> simp_all)
+
+/-- what the candidate `repaired` (awaiting worker) gives when the re-check is where the code has it: window (b) is
+    closed (`late = 0`), window (c) is not - the bound is `limit + unseen`.  (`bounded_at_quiescence_repaired`, the bound
+    `limit` after every schedule, is about `step`, which re-checks after every exit.) -/
+theorem bounded_at_quiescence_repaired_code {v : Variant} (hv : v.repairedOk = true) {limit : Nat} {g : GSt}
+    (h : GReachOk true v limit g) (hq : g.st.quiescent = true) : g.late = 0 ∧ g.st.dirty ≤ limit + g.unseen := by
+  simp only [Variant.repairedOk, Bool.and_eq_true] at hv
+  have hv' : v.recheckOk = true := by simp [Variant.recheckOk, hv.1]
+  have h1 := gbounded_at_quiescence hv' h hq
+  obtain ⟨base, evs, _, hr⟩ := h
+  have h2 := late_zero_of_awaitRunning hv.2 (g := ginit base) rfl hr
+  exact ⟨h2, by omega⟩
+
+/-- (3), with failures, in the code reading: after ANY history (failed syncs are NOT retried, so rest over the limit is
+    reachable), the first write that takes the active blob over the limit leads to a sync again; when it succeeds the
+    re-check follows (this exit has it) and the protocol is at rest with no un-synced byte -/
+theorem sync_after_failure_code {v : Variant} (hv : v.recheckOk = true) {limit : Nat} {g : GSt}
+    (h : GReach true v limit g) (hq : g.st.quiescent = true) {n : Nat} (hover : g.st.size + n - g.st.synced > limit) :
+    ∃ t u, grun true v limit g [.write n, .recv, .cas, .check, .start] = some t ∧
+      t.st.phase = .syncing (g.st.size + n) ∧
+      grun true v limit t [.complete true, .release, .recheck, .finish] = some u ∧
+      u.st.quiescent = true ∧ u.st.flag = false ∧ u.st.dirty = 0 ∧ u.late = 0 ∧ u.unseen = 0 := by
+  obtain ⟨t, u, h1, h2, _, _, h5, h6, h7, _, h9, h10, _, h12, h13⟩ :=
+    gwrite_over_limit_syncs hv (gctl_reach (Variant.guarded_of_recheckOk hv) h) hq hover
+  refine ⟨t, u, h1, h2, h5, h6, h7, ?_, h12, h13⟩
+  simp only [St.dirty, h9, h10]
+  omega
+
+-- non-vacuity: the state at rest after the failed sync of `failed_sync_not_retried_witness`, then a 1-byte write
+example : ∃ t u, grun true recheckOnly 100 ⟨⟨220, 20, false, .finished, .idle, 0, 0, 20, 0, 0⟩, false, 0, 0, 0⟩
+      [.write 1, .recv, .cas, .check, .start] = some t ∧ t.st.phase = .syncing 221 ∧
+      grun true recheckOnly 100 t [.complete true, .release, .recheck, .finish] = some u ∧
+      u.st.quiescent = true ∧ u.st.flag = false ∧ u.st.dirty = 0 ∧ u.late = 0 ∧ u.unseen = 0 :=
+  sync_after_failure_code (v := recheckOnly) rfl
+    ⟨20, [.write 200, .recv, .cas, .check, .start, .complete false, .release, .finish], by decide +kernel⟩ rfl
+    (by decide)
+-- the bound of the code reading on the two witnesses: 200 ≤ 100 + 0 + 200 (window (c)), 200 ≤ 100 + 200 + 0 (window (b))
+example : (⟨620, 420, false, .finished, .idle, 0, 0, 420, 200, 0⟩ : St).dirty ≤ 100 + 0 + 200 :=
+  bounded_at_quiescence_code (v := recheckOnly) (g := ⟨⟨620, 420, false, .finished, .idle, 0, 0, 420, 200, 0⟩, false, 0, 0, 200⟩)
+    rfl ⟨20, [.write 200, .write 200, .recv, .cas, .check, .start, .complete true, .release, .recheck, .finish,
+      .recv, .cas, .check, .write 200, .release, .finish], by decide, by decide +kernel⟩ rfl
+example : (⟨420, 220, false, .finished, .idle, 0, 0, 220, 200, 0⟩ : St).dirty ≤ 100 + 200 + 0 :=
+  bounded_at_quiescence_code (v := recheckOnly) (g := ⟨⟨420, 220, false, .finished, .idle, 0, 0, 220, 200, 0⟩, true, 0, 200, 0⟩)
+    rfl ⟨20, [.write 200, .recv, .cas, .check, .start, .complete true, .release, .recheck, .write 200, .recv, .finish],
+      by decide, by decide +kernel⟩ rfl
+-- the candidate `repaired` in the code reading: window (b) closed (`recv` not enabled), window (c) still open
+example : grun true repaired 100 (ginit 20) [.write 200, .recv, .cas, .check, .start, .complete true, .release, .recheck,
+    .write 200, .recv] = none := by decide +kernel
+example : (grun true repaired 100 (ginit 20) [.write 200, .write 200, .recv, .cas, .check, .start, .complete true, .release,
+    .recheck, .finish, .recv, .cas, .check, .write 200, .release, .finish]).map (fun g => (g.st.quiescent, g.st.dirty, g.unseen))
+    = some (true, 200, 200) := by decide +kernel
+
 end SyncProto
 end Pearl
 
 /-
 NOT YET PROVED / outside the model (sync request protocol):
-* FALSE of /repo as it is, with proof of the negation: `no_lost_request` and `bounded_at_quiescence` as stated
-  (`no_lost_request_refuted`, `bounded_at_quiescence_refuted`, `bounded_at_quiescence_refuted_any`); schedule (a)
+* FALSE of /repo BEFORE bc65670 (`current`), with proof of the negation: `no_lost_request` and `bounded_at_quiescence` as
+  stated (`no_lost_request_refuted`, `bounded_at_quiescence_refuted`, `bounded_at_quiescence_refuted_any`); schedule (a)
   reproduced on the real library with the pause failpoint.  Proved instead: the bound `limit + blind`
   (`bounded_at_quiescence_partial`), the bound `limit` when no append lands after a task's size capture
   (`bounded_at_quiescence_no_blind_write`), and the bound `limit` for the candidate repair
   (`bounded_at_quiescence_repaired`).
-* Schedule (b) of `no_lost_request_refuted` (request sent after the guard reset the flag, received before
-  `JoinHandle::is_finished`) could not be replayed: the hook has no pause point between the guard's `Drop` and the end
-  of the task.
+* The code as it is since bc65670 (`recheckOnly`, section (7)).  Window (a) is closed (`e23_schedule_now_synced`).
+  `bounded_at_quiescence` as stated is STILL FALSE (`window_b_witness`, `bounded_at_quiescence_refuted_recheckOnly`): window
+  (b) - request sent after the task's last re-check, received before `JoinHandle::is_finished` - is open.  Proved instead:
+  `limit + late` (`bounded_at_quiescence_recheckOnly`), `late ≠ 0` only through a `recv` in that window
+  (`window_b_characterised`), `limit` when there is none (`bounded_at_quiescence_no_late_drop`); an awaiting worker closes
+  it (`late_zero_of_awaitRunning`, `bounded_at_quiescence_repaired`).
+* `step` with `recheck := true` is NOT the code on three exits of `Inner::fsyncdata`: the re-check of the code follows a
+  successful `safe.fsyncdata()` only; the early return ("not over the limit"), the `?` of a failed sync and a lost
+  compare-exchange leave the function without it, `step` re-checks after every `release`.  `Model/SyncProto.lean` was
+  left as it is (its definitions are not to be changed); the code reading is `gstep true` of `Proofs/SyncProto2.lean`
+  (ghost `afterSync`), `gstep false` is `step` (`gstep_false_st`).  Consequences, all proved in the code reading:
+  (c1) a write acknowledged between an early-return check and the drop of the guard is neither requested nor
+  re-checked (`early_return_window_witness`; a window of a few instructions, needs a redundant request: two writes over
+  the limit before the first task takes the flag); (c2) a failed sync is not retried, the state at rest after it is over
+  the limit as before the commit (`failed_sync_not_retried_witness`; `step` retries at once, `failed_sync_retried_by_step`),
+  and the next write over the limit does lead to a sync (`sync_after_failure_code`); the bound is
+  `limit + late + unseen` (`bounded_at_quiescence_code`, `window_b_characterised_code`, `window_c_characterised_code`);
+  the candidate `repaired` closes (b) only (`bounded_at_quiescence_repaired_code`).  `Tie/C12.lean`
+  (`background_sync_shape`) checks the presence of the loop / inner scope / re-check after the release, not which exits
+  reach it.  `bounded_at_quiescence_repaired` and the `…_recheckOnly` theorems are about `step`, i.e. about a task body
+  that re-checks after every exit.
+* `late` is accounted at the drop: all bytes appended since the last re-check are given up when ONE request is dropped
+  in the window, also when a second request of the same window survives and is served (then `late` is reset by the
+  capture of that sync, so the bound at rest is not affected, only the intermediate value is an over-approximation).
+* Neither window (b) nor (c1) could be replayed on the library: the I/O hook has no pause point between the guard's
+  `Drop` / the re-check and the end of the task.
 * Liveness is stated as "the internal steps are enabled and every internal schedule has at most `measure` steps"
-  (`comes_to_rest`, `sync_without_client_action_partial`, `sync_after_failure`); fairness of the tokio scheduler is
-  assumed, not modelled.  For the candidate repair only safety is proved (a sync that fails for ever is retried for
-  ever).
+  (`comes_to_rest`, `sync_without_client_action_partial`, `sync_after_failure`; with the re-check `measureR`:
+  `comes_to_rest_recheck`, `comes_to_rest_code`, `sync_after_failure_recheckOnly`); fairness of the tokio scheduler is
+  assumed, not modelled.  For `step` with the re-check only safety and "comes to rest when every later sync succeeds" are
+  proved (a sync that fails for ever is retried for ever by `step`; not by the code).
 * Not modelled here: the explicit `Storage::fsyncdata`, `close_active_blob` and `restore_active_blob` (they sync the
-  blob themselves, under `Fs`), a full worker channel (the send of `TryFsyncData` waiting for a slot is a message that
-  stays `pending`), a storage without active blob while the task runs (`safe.fsyncdata()` then does nothing).
+  blob themselves, under `Fs`; none of them touches the flag, so the task never loses its compare-exchange), a full
+  worker channel (the send of `TryFsyncData` waiting for a slot is a message that
+  stays `pending`), a storage without active blob while the task runs (`safe.fsyncdata()` then does nothing and the
+  re-check answers "not over the limit").
 * The link to `Fs` is on the counters of the active blob file (`fsyncCheckP_is_checkEffect`,
-  `quiescent_projection`): one client write between two states at rest.  Several writes between two states at rest
-  differ from `Fs` (the capture covers whatever was appended before it), by design of `Fs` as the sequential model.
+  `quiescent_projection`, `quiescent_projection_recheckOnly`): one client write between two states at rest.  Several writes
+  between two states at rest differ from `Fs` (the capture covers whatever was appended before it), by design of `Fs` as
+  the sequential model.
 -/
